@@ -269,6 +269,7 @@ type world struct {
 	plain    []string
 	ops      map[int]*opInfo
 	told     map[int]map[string]bool // operation -> ids it was told are unknown
+	nTold    map[string]int          // "<operation>|<id>" -> how many times that operation (-1: unknown) was answered UNPREPARED(id)
 	maxLen   int
 	cancelAt int     // seq stamp of the canceller's cancel() (0: not yet / none)
 	victim   *opInfo // context scenarios: the operation whose context ends (first operation of a freely chosen executor)
@@ -277,9 +278,12 @@ type world struct {
 	finished int     // executor threads that have returned
 }
 
-// tell records that the operations whose values are in el were answered UNPREPARED(id).
-func (w *world) tell(el *execLog, id string) {
+// tell records that the operations whose values are in el were answered UNPREPARED(id). It returns how many times
+// (including this one) the same operation has been given that answer for that id.
+func (w *world) tell(el *execLog, id string) int {
 	el.outcome, el.unprep = "unprepared", id
+	most := 0
+	seen := map[int]bool{}
 	for _, en := range el.entries {
 		if en.op >= 0 {
 			if w.told[en.op] == nil {
@@ -287,7 +291,29 @@ func (w *world) tell(el *execLog, id string) {
 			}
 			w.told[en.op][id] = true
 		}
+		if !seen[en.op] {
+			seen[en.op] = true
+			k := fmt.Sprintf("%d|%s", en.op, id)
+			w.nTold[k]++
+			if w.nTold[k] > most {
+				most = w.nTold[k]
+			}
+		}
 	}
+	return most
+}
+
+// unknownID is the node's answer to a request with an id it does not know (never issued here / forgotten): UNPREPARED(id).
+// An operation that gets this answer for the same id a second time has already been flagged (c14:id-of-another-host,
+// c14:id-never-issued on the first, c14:forgotten-id-sent-again on the second request); from the fourth time on the node
+// answers with a plain error instead, which ends the driver's resend loop: a livelocking driver is then reported from
+// short executions instead of executions that run to the step limit (60 000 steps, gigabytes of search stack per shard).
+func (w *world) unknownID(el *execLog, id string) vnode.Reply {
+	if w.tell(el, id) > 3 {
+		el.outcome = "invalid"
+		return vnode.Reply{Msg: &frame.Error{Code: 0x2200, Message: "harness: the same unknown prepared id was sent again and again"}}
+	}
+	return unprepared(id)
 }
 
 func (w *world) touch()    { vs.Touch(unsafe.Pointer(&w.obj), true) }
@@ -483,16 +509,14 @@ func (w *world) handler(ip string, idx int) vnode.Handler {
 				w.phase = 2
 			}
 			if e.rec == nil {
-				w.tell(el, e.id)
-				return unprepared(e.id)
+				return w.unknownID(el, e.id)
 			}
 			if !ok {
 				el.outcome = "invalid"
 				return vnode.Reply{Msg: &frame.Error{Code: 0x2200, Message: "Invalid amount of bind variables"}}
 			}
 			if e.rec.forgotten {
-				w.tell(el, e.id)
-				return w.stale(unprepared(e.id))
+				return w.stale(w.unknownID(el, e.id))
 			}
 			if w.cfg.unprep && vs.Choose(2, vs.CostF) == 1 {
 				e.rec.forgotten = true
@@ -533,8 +557,7 @@ func (w *world) handler(ip string, idx int) vnode.Handler {
 				e, ok := w.checkEntry(ns, be.ID, be.Values, i, fmt.Sprintf("%s entry %d", where, i))
 				el.entries = append(el.entries, e)
 				if e.rec == nil {
-					w.tell(el, e.id)
-					return unprepared(e.id)
+					return w.unknownID(el, e.id)
 				}
 				allOK = allOK && ok
 			}
@@ -545,8 +568,7 @@ func (w *world) handler(ip string, idx int) vnode.Handler {
 			// ids the node no longer knows
 			for _, e := range el.entries {
 				if e.rec != nil && e.rec.forgotten {
-					w.tell(el, e.id)
-					return w.stale(unprepared(e.id))
+					return w.stale(w.unknownID(el, e.id))
 				}
 			}
 			if w.cfg.unprep {
@@ -669,7 +691,7 @@ func (c *c14cfg) distinctStatements() int {
 func (c *c14cfg) body() {
 	gocql.VerifResetGlobals()
 	vatomic.Yield = false
-	w := &world{cfg: c, nodes: map[string]*nodeState{}, ops: map[int]*opInfo{}, told: map[int]map[string]bool{}}
+	w := &world{cfg: c, nodes: map[string]*nodeState{}, ops: map[int]*opInfo{}, told: map[int]map[string]bool{}, nTold: map[string]int{}}
 	cl := newCluster(true)
 	var ips []string
 	for i := 1; i <= c.hosts; i++ {
@@ -1188,8 +1210,9 @@ func main() {
 		}
 	}
 	mcreport.Main("C14", "model_checking",
-		"delay-bounded exhaustive exploration of 2-3 executor threads (1-2 prepared queries / batches each) on a real Session over 1-2 scripted nodes: every schedule, timer and fault placement with at most T deviations from the default schedule (P: run another thread, D: fire a request timeout early, F: the node fails a PREPARE with an ERROR frame / never answers it / forgets a prepared id and answers UNPREPARED); scenarios vary the statements (5 statements with different bind and result metadata; 6 kinds of PAIRS of distinct statements with almost equal texts - white space inside a string literal / quoted identifier (two blanks, tab, newline), letter case inside a literal / quoted identifier - each as two queries and as two entries of one batch), MaxPreparedStmts (default, 1, 2), hosts (1, 2), queries vs batches, right vs wrong number of bound values, and whose context ends (the first operation of ANY one executor - the one that wins the race to PREPARE or one waiting on that PREPARE - cancelled at a freely chosen gate or by a 20ms deadline, with the same statement executed again while the PREPARE, answered 30ms late, is still in flight); node logs (ids issued per host and statement, values decoded against the statement's bind metadata) and caller results are checked against the property",
+		"delay-bounded exhaustive exploration of 2-3 executor threads (1-2 prepared queries / batches each) on a real Session over 1-2 scripted nodes: every schedule, timer and fault placement with at most T deviations from the default schedule (P: run another thread, D: fire a request timeout early, F: the node fails a PREPARE with an ERROR frame / never answers it / forgets a prepared id and answers UNPREPARED); scenarios vary the statements (5 statements with different bind and result metadata; 6 kinds of PAIRS of distinct statements with almost equal texts - white space inside a string literal / quoted identifier (two blanks, tab, newline), letter case inside a literal / quoted identifier - each as two queries and as two entries of one batch), MaxPreparedStmts (default, 1, 2), hosts (1, 2), the ADDRESS LAYOUT of two hosts (one IP address each on the same port / ONE shared IP address and different ports - every two-host configuration in both layouts), queries vs batches, right vs wrong number of bound values, and whose context ends (the first operation of ANY one executor - the one that wins the race to PREPARE or one waiting on that PREPARE - cancelled at a freely chosen gate or by a 20ms deadline, with the same statement executed again while the PREPARE, answered 30ms late, is still in flight); node logs (ids issued per host and statement, values decoded against the statement's bind metadata) and caller results are checked against the property",
 		[]string{"1 connection per host, round-robin host selection, request timeout 100ms, protocol v4, no control connection, no retry policy",
+			"two hosts on one IP address: gocql's own host selection policies keep their host list by IP address and would offer only one of them, so these configurations use a harness round-robin policy that identifies hosts by host id (public HostSelectionPolicy extension point); the hosts are contact points 'ip:port' with their own (random) host ids",
 			"every PREPARE returns a fresh host-specific id (<host>/<statement>/g<n>); earlier ids stay valid until the node forgets them",
 			"the node identifies a statement by its exact text (as a server does: the id is a digest of the text): texts that differ in any byte are different statements with different ids",
 			"stream-allocator atomics are not scheduling points (C08); the LRU has no internal scheduling points, so its length is read between steps"},
